@@ -2,7 +2,7 @@
 """Re-run every kept seeded change against the checks (regression test of the machinery itself).
   breaking changes (seeded/<id>/ without a trailing q): at least one of the checks named in
       meta.json caught_by (not marked silent / not applicable) must exit 1;
-  property-preserving changes (seeded/<id>q/): all 20 quick checks must exit 0.
+  property-preserving changes (seeded/<id>q/ and seeded/<id>r/): all 20 quick checks must exit 0.
 Applies each patch to /repo, runs, restores /repo (never commits). Writes seeded/RESULTS.md.
 usage: run_seeded.py [id ...]   (default: all)"""
 import json, os, re, subprocess, sys
@@ -12,7 +12,16 @@ ids = sys.argv[1:] or sorted(d for d in os.listdir(f"{V}/seeded") if os.path.isf
 rows, bad = [], 0
 for i in ids:
     meta = json.load(open(f"{V}/seeded/{i}/meta.json"))
-    preserving = i.endswith("q")
+    preserving = i.endswith("q") or i.endswith("r")
+    if i == "C04r":
+        # preserves C04, breaks C15 (see its meta.json): C15 must report it, everything else stays silent
+        out = subprocess.run([f"{V}/scripts/try_mutant.sh", f"{V}/seeded/{i}/patch.diff"] + ALL, capture_output=True, text=True).stdout
+        rcs = dict(re.findall(r"== (C\d\d) rc=(\d)", out))
+        ok = rcs.get("C15") == "1" and all(rcs.get(c) == "0" for c in ALL if c != "C15")
+        rows.append((i, "preserves C04 / breaks C15", "C15 reports it, all others silent" if ok else "UNEXPECTED: " + str(rcs)))
+        bad += 0 if ok else 1
+        print(i, rows[-1][2], flush=True)
+        continue
     if preserving:
         checks = ALL
     else:
